@@ -50,11 +50,10 @@ func wrapTo(t Term, ty types.Type) Term {
 }
 
 func isLit(t Term) (int64, bool) {
-	var n int64
-	if _, err := fmt.Sscanf(t.S, "%d", &n); err == nil && fmt.Sprint(n) == t.S {
-		return n, true
+	if t.Sort != SInt {
+		return 0, false
 	}
-	return 0, false
+	return litVal(t.S)
 }
 
 // goDiv / goMod: Go's truncated division on mathematical integers.
@@ -576,7 +575,11 @@ func (ex *Exec) unboxIface(t Term, ty types.Type) Val {
 		return Scalar{Eq(IfVal(t), IntLit(1)), ty}
 	}
 	u := ex.vc.declareFun("unbox|"+string(srt), []Sort{SInt}, srt)
-	return Scalar{App(srt, u, IfVal(t)), ty}
+	inner := IfVal(t)
+	if h, args := splitApp(inner.S); h == quoteSym("box|"+string(srt)) && len(args) == 1 {
+		return Scalar{Term{args[0], srt}, ty}
+	}
+	return Scalar{App(srt, u, inner), ty}
 }
 
 // implements reports, as a term over the dynamic type id, whether the dynamic type satisfies iface.
